@@ -20,7 +20,7 @@ import (
 
 var joinAliases = []string{"t", "u", "v"}
 
-type jcol struct {
+type joinCol struct {
 	sql   string // qualified name as written in the query
 	kind  byte   // i f s
 	typed bool   // the column holds at least one non-NULL value (otherwise its static type is NULL)
@@ -40,10 +40,10 @@ func (t jtable) typed(j int) bool {
 	return false
 }
 
-func (t jtable) cols(alias string, idx int) []jcol {
-	out := make([]jcol, len(t.kinds))
+func (t jtable) cols(alias string, idx int) []joinCol {
+	out := make([]joinCol, len(t.kinds))
 	for j := range t.kinds {
-		out[j] = jcol{sql: fmt.Sprintf("%s.%sc%d", alias, joinAliases[idx], j), kind: t.kinds[j], typed: t.typed(j)}
+		out[j] = joinCol{sql: fmt.Sprintf("%s.%sc%d", alias, joinAliases[idx], j), kind: t.kinds[j], typed: t.typed(j)}
 	}
 	return out
 }
@@ -99,7 +99,7 @@ func genJTable(g *Gen, kinds []byte, minRows, maxRows int) jtable {
 
 type jexpr struct{ tok, sql string }
 
-func colExpr(pos int, c jcol) jexpr { return jexpr{tok: fmt.Sprintf("c%d", pos), sql: c.sql} }
+func colExpr(pos int, c joinCol) jexpr { return jexpr{tok: fmt.Sprintf("c%d", pos), sql: c.sql} }
 
 func litExpr(g *Gen, kind byte) jexpr {
 	v := joinValue(g, kind)
@@ -114,7 +114,7 @@ func litExpr(g *Gen, kind byte) jexpr {
 }
 
 // positions of the columns (within all) that satisfy ok
-func pickCol(g *Gen, all []jcol, lo, hi int, ok func(jcol) bool) (int, bool) {
+func pickCol(g *Gen, all []joinCol, lo, hi int, ok func(joinCol) bool) (int, bool) {
 	var idx []int
 	for i := lo; i < hi; i++ {
 		if ok(all[i]) {
@@ -130,18 +130,18 @@ func pickCol(g *Gen, all []jcol, lo, hi int, ok func(jcol) bool) (int, bool) {
 var orderOps = []string{"<", "<=", ">", ">="}
 
 // genJPred: a boolean expression over all[lo:hi] (positions are indices into all)
-func genJPred(g *Gen, all []jcol, lo, hi int, depth int) jexpr {
+func genJPred(g *Gen, all []joinCol, lo, hi int, depth int) jexpr {
 	k := g.Intn(10)
 	if depth <= 0 && k >= 7 {
 		k = g.Intn(7)
 	}
 	switch {
 	case k < 3: // column against column of the same kind
-		a, ok := pickCol(g, all, lo, hi, func(c jcol) bool { return true })
+		a, ok := pickCol(g, all, lo, hi, func(c joinCol) bool { return true })
 		if !ok {
 			return jexpr{tok: "v b1", sql: "true"}
 		}
-		b, ok := pickCol(g, all, lo, hi, func(c jcol) bool { return c.kind == all[a].kind })
+		b, ok := pickCol(g, all, lo, hi, func(c joinCol) bool { return c.kind == all[a].kind })
 		if !ok {
 			b = a
 		}
@@ -152,7 +152,7 @@ func genJPred(g *Gen, all []jcol, lo, hi int, depth int) jexpr {
 		op := Pick(g, ops)
 		return jexpr{tok: op + " " + colExpr(a, all[a]).tok + " " + colExpr(b, all[b]).tok, sql: "(" + all[a].sql + " " + op + " " + all[b].sql + ")"}
 	case k < 5: // column against literal
-		a, ok := pickCol(g, all, lo, hi, func(c jcol) bool { return c.typed })
+		a, ok := pickCol(g, all, lo, hi, func(c joinCol) bool { return c.typed })
 		if !ok {
 			return jexpr{tok: "v b1", sql: "true"}
 		}
@@ -160,7 +160,7 @@ func genJPred(g *Gen, all []jcol, lo, hi int, depth int) jexpr {
 		l := litExpr(g, all[a].kind)
 		return jexpr{tok: op + " " + colExpr(a, all[a]).tok + " " + l.tok, sql: "(" + all[a].sql + " " + op + " " + l.sql + ")"}
 	case k < 7: // IS [NOT] NULL
-		a, ok := pickCol(g, all, lo, hi, func(c jcol) bool { return true })
+		a, ok := pickCol(g, all, lo, hi, func(c joinCol) bool { return true })
 		if !ok {
 			return jexpr{tok: "v b1", sql: "true"}
 		}
@@ -182,7 +182,7 @@ func genJPred(g *Gen, all []jcol, lo, hi int, depth int) jexpr {
 
 type jfrom struct {
 	tok, sql string
-	cols     []jcol
+	cols     []joinCol
 }
 
 type joinGen struct {
@@ -193,7 +193,7 @@ type joinGen struct {
 	subN   int
 }
 
-func (jg *joinGen) leaf(i int, ctx []jcol) jfrom {
+func (jg *joinGen) leaf(i int, ctx []joinCol) jfrom {
 	g := jg.g
 	alias := joinAliases[i]
 	fi := jg.fileOf[i] // the file read under this alias (a self join reads the file of an earlier table again)
@@ -205,7 +205,7 @@ func (jg *joinGen) leaf(i int, ctx []jcol) jfrom {
 	// a sub-select: (SELECT <* | e AS n, …> FROM file x [WHERE w]) alias ; positions are relative to ctx ++ columns of the file
 	jg.subN++
 	inner := fmt.Sprintf("%s%d", alias, jg.subN)
-	all := append(append([]jcol{}, ctx...), jg.tables[i].cols(inner, fi)...)
+	all := append(append([]joinCol{}, ctx...), jg.tables[i].cols(inner, fi)...)
 	srcTok := fmt.Sprintf("t%d", i)
 	whereSQL := ""
 	if k < 15 || k >= 18 {
@@ -218,7 +218,7 @@ func (jg *joinGen) leaf(i int, ctx []jcol) jfrom {
 	}
 	n := 1 + g.Intn(len(all)-len(ctx)+1)
 	var toks, sqls []string
-	var out []jcol
+	var out []joinCol
 	for j := 0; j < n; j++ {
 		a := len(ctx) + g.Intn(len(all)-len(ctx))
 		if j < len(all)-len(ctx) && g.Chance(2, 3) {
@@ -231,7 +231,7 @@ func (jg *joinGen) leaf(i int, ctx []jcol) jfrom {
 		name := fmt.Sprintf("%sp%d", alias, j)
 		toks = append(toks, e.tok)
 		sqls = append(sqls, e.sql+" AS "+name)
-		out = append(out, jcol{sql: alias + "." + name, kind: all[a].kind, typed: all[a].typed})
+		out = append(out, joinCol{sql: alias + "." + name, kind: all[a].kind, typed: all[a].typed})
 	}
 	return jfrom{tok: fmt.Sprintf("proj %d %s %s", n, srcTok, strings.Join(toks, " ")),
 		sql:  fmt.Sprintf("(SELECT %s FROM %s %s%s) %s", strings.Join(sqls, ", "), file, inner, whereSQL, alias),
@@ -239,7 +239,7 @@ func (jg *joinGen) leaf(i int, ctx []jcol) jfrom {
 }
 
 // onCond builds the ON condition of a join whose inputs occupy all[c:c+wl] and all[c+wl:]; all[:c] is the context
-func (jg *joinGen) onCond(kind string, all []jcol, c, wl int, ctxRefs bool) jexpr {
+func (jg *joinGen) onCond(kind string, all []joinCol, c, wl int, ctxRefs bool) jexpr {
 	g := jg.g
 	outer := kind == "left" || kind == "right" || kind == "full"
 	var parts []jexpr
@@ -248,11 +248,11 @@ func (jg *joinGen) onCond(kind string, all []jcol, c, wl int, ctxRefs bool) jexp
 		nk = 0
 	}
 	for i := 0; i < nk; i++ {
-		a, ok := pickCol(g, all, c, c+wl, func(jcol) bool { return true })
+		a, ok := pickCol(g, all, c, c+wl, func(joinCol) bool { return true })
 		if !ok {
 			break
 		}
-		b, ok := pickCol(g, all, c+wl, len(all), func(x jcol) bool { return x.kind == all[a].kind })
+		b, ok := pickCol(g, all, c+wl, len(all), func(x joinCol) bool { return x.kind == all[a].kind })
 		if !ok {
 			continue
 		}
@@ -325,14 +325,14 @@ func joinKeyword(kind string) string {
 }
 
 // join builds `l <kind> JOIN r ON …`; mk build the two sides given their context
-func (jg *joinGen) join(kind string, ctx []jcol, mkL, mkR func(ctx []jcol) jfrom, parenR bool) jfrom {
+func (jg *joinGen) join(kind string, ctx []joinCol, mkL, mkR func(ctx []joinCol) jfrom, parenR bool) jfrom {
 	l := mkL(ctx)
 	rctx := ctx
 	if kind == "lookup" {
-		rctx = append(append([]jcol{}, ctx...), l.cols...)
+		rctx = append(append([]joinCol{}, ctx...), l.cols...)
 	}
 	r := mkR(rctx)
-	all := append(append(append([]jcol{}, ctx...), l.cols...), r.cols...)
+	all := append(append(append([]joinCol{}, ctx...), l.cols...), r.cols...)
 	on := jg.onCond(kind, all, len(ctx), len(l.cols), true)
 	rsql := r.sql
 	if parenR {
@@ -340,7 +340,7 @@ func (jg *joinGen) join(kind string, ctx []jcol, mkL, mkR func(ctx []jcol) jfrom
 	}
 	return jfrom{tok: fmt.Sprintf("j %s %s %s %s", kind, l.tok, r.tok, on.tok),
 		sql:  fmt.Sprintf("%s %s %s ON %s", l.sql, joinKeyword(kind), rsql, on.sql),
-		cols: append(append([]jcol{}, l.cols...), r.cols...)}
+		cols: append(append([]joinCol{}, l.cols...), r.cols...)}
 }
 
 // genJoinOp produces one `jn` line
@@ -386,16 +386,16 @@ func genJoinOp(g *Gen, thorough bool) string {
 		}
 		jg.fileOf = append(jg.fileOf, i)
 	}
-	leaf := func(i int) func([]jcol) jfrom { return func(ctx []jcol) jfrom { return jg.leaf(i, ctx) } }
+	leaf := func(i int) func([]joinCol) jfrom { return func(ctx []joinCol) jfrom { return jg.leaf(i, ctx) } }
 	var f jfrom
 	k1, k2 := Pick(g, sqlJoinKinds), Pick(g, sqlJoinKinds)
 	switch {
 	case ntab == 2:
 		f = jg.join(k1, nil, leaf(0), leaf(1), false)
 	case g.Bool(): // left-deep: (t k1 u) k2 v
-		f = jg.join(k2, nil, func(ctx []jcol) jfrom { return jg.join(k1, ctx, leaf(0), leaf(1), false) }, leaf(2), false)
+		f = jg.join(k2, nil, func(ctx []joinCol) jfrom { return jg.join(k1, ctx, leaf(0), leaf(1), false) }, leaf(2), false)
 	default: // right-nested: t k1 (u k2 v)
-		f = jg.join(k1, nil, leaf(0), func(ctx []jcol) jfrom { return jg.join(k2, ctx, leaf(1), leaf(2), false) }, true)
+		f = jg.join(k1, nil, leaf(0), func(ctx []joinCol) jfrom { return jg.join(k2, ctx, leaf(1), leaf(2), false) }, true)
 	}
 	whrTok, whrSQL := "-", ""
 	if g.Chance(1, 3) {
@@ -415,7 +415,7 @@ func genJoinOp(g *Gen, thorough bool) string {
 			a := g.Intn(len(f.cols))
 			e := colExpr(a, f.cols[a])
 			if f.cols[a].kind == 'i' && f.cols[a].typed && g.Chance(1, 3) {
-				if b, ok := pickCol(g, f.cols, 0, len(f.cols), func(c jcol) bool { return c.kind == 'i' && c.typed }); ok {
+				if b, ok := pickCol(g, f.cols, 0, len(f.cols), func(c joinCol) bool { return c.kind == 'i' && c.typed }); ok {
 					e = jexpr{tok: "+ " + e.tok + " " + colExpr(b, f.cols[b]).tok, sql: "(" + e.sql + " + " + f.cols[b].sql + ")"}
 				}
 			}
